@@ -13,7 +13,7 @@ from streamflow.workflow.step import CombinatorStep
 from streamflow.workflow.token import TerminationToken
 
 from sfv.framework import Ctx, Inconclusive, Property
-from sfv.rt import loop as sfloop
+from sfv.rt import loop_safe as sfloop   # thread-safe shuffle (see rt/loop_safe.py)
 from sfv.rt import sfctx
 from sfv.translate import combguards, tagguards
 
